@@ -171,6 +171,22 @@ def plan_c22(ctx):
         nv = rng.randint(1, 4)
         add(ctx, [{"id": "C22-r-s%d" % i, "kind": "store", "vars": list(range(1, nv + 1)), "k": 0,
                    "ops": gen.store_ops(rng, nv, rng.randint(2, 7), rng.randint(1, 3), p_neq=0.6)}])
+    # CLP(FD) and CLP(Z) programs: constraints that are not disequalities enter and leave the store on
+    # other paths (labelling, resolution, the store replacement at reification)
+    for c in fd_random(ctx, T(ctx, 150, 3000), "f"):
+        add(ctx, [c])
+    for i in range(T(ctx, 250, 5000)):
+        nv = rng.randint(1, 3)
+        vs = list(range(1, nv + 1))
+        o = lambda: ["var", rng.choice(vs)] if rng.random() < 0.7 else ["num", rng.randint(-4, 4)]
+        zs = lambda: [[rng.choice(["plusz", "timesz"]), o(), o(), o()] for _ in range(rng.randint(1, 2))]
+        t = lambda: ["eq" if rng.random() < 0.6 else "neq", ["var", rng.choice(vs)],
+                     ["num", rng.randint(-4, 4)] if rng.random() < 0.7 else ["var", rng.choice(vs)]]
+        goals = zs() + [t() for _ in range(rng.randint(0, 2))]
+        if rng.random() < 0.5:
+            goals.append(["conde", [zs() + [t()][:rng.randint(0, 1)], [t()] + zs()[:rng.randint(0, 1)]]])
+        rng.shuffle(goals)
+        add(ctx, [{"id": "C22-z-q%d" % i, "kind": "program", "mode": "query", "qvars": vs, "body": goals, "after": 1}])
 
 
 def has_tag(tag):
@@ -200,8 +216,10 @@ PROPS = {
             "assumptions": ["TLC, Json/IOUtils, harness projectors"]},
     "C22": {"plan": plan_c22, "reasons": R_HOOKS | {"user_trail_differs"},
             "rule": "MC_Tree scope step by step on State and as queries (probe after reification), random programs and "
-                    "store sequences with an instrumented User type.  Non-trivial: contains a disequality.",
-            "nontrivial": lambda c: bool({"neq", "disunify"} & vlib.goal_tags(c)),
+                    "store sequences with an instrumented User type; random CLP(FD) programs and CLP(Z) programs whose "
+                    "constraints survive to the answer (alone, next to disequalities, per branch).  Non-trivial: contains "
+                    "a constraint (disequality, FD or Z).",
+            "nontrivial": lambda c: bool({"neq", "disunify", "plusz", "timesz", "dom", "plusfd", "ltefd", "neqfd"} & vlib.goal_tags(c)),
             "assumptions": ["TLC, Json/IOUtils, harness projectors; the User trait is the library's own extension interface"]},
 }
 
@@ -374,6 +392,7 @@ def plan_c10(ctx):
                   query(ctx, g + "-b", nq, prefix + B + post, group=g, gcheck="union"),
                   query(ctx, g + "-ba", nq, prefix + [["conde", [B, A]]] + post)])
     plan_c10_fd(ctx)
+    plan_c10_dom(ctx)
 
 
 def plan_c10_fd(ctx):
@@ -407,6 +426,49 @@ def plan_c10_fd(ctx):
 
         A, B, C = branch(), branch(), branch()
         g = "C10-fd%d" % i
+        add(ctx, [query(ctx, g + "-abc", nv, prefix + [["conde", [A, B, C]]], group=g),
+                  query(ctx, g + "-a", nv, prefix + A, group=g),
+                  query(ctx, g + "-b", nv, prefix + B, group=g),
+                  query(ctx, g + "-c", nv, prefix + C, group=g, gcheck="union"),
+                  query(ctx, g + "-cba", nv, prefix + [["conde", [C, B, A]]])])
+
+
+def plan_c10_dom(ctx):
+    """Domains handed out INSIDE branches: a variable without a domain in the shared prefix gets its first domain
+    (or a value, or nothing) in each branch; the domain store of the forked states must not be shared."""
+    rng = ctx["rng"]
+    for i in range(T(ctx, 250, 5000)):
+        nv = rng.randint(2, 3)
+        vs = list(range(1, nv + 1))
+        x, rest = vs[0], vs[1:]
+        lo, hi = rng.choice([(1, 4), (0, 3), (-2, 2)])
+        prefix = []
+        if rng.random() < 0.6:
+            prefix.append(["dom", ["list", [["var", v] for v in rest]], ["itv", lo, hi]])
+            if rng.random() < 0.5 and len(rest) >= 2:
+                prefix.append(gen.fd_constraint(rng, rest, lo, hi))
+            have = True
+        else:
+            have = False
+
+        def branch():
+            r = rng.random()
+            if r < 0.5:
+                gs = [["dom", ["var", x], gen.fd_domain(rng, lo, hi)]]
+                if have and rng.random() < 0.4:
+                    gs.append(gen.fd_constraint(rng, [x, rest[0]], lo, hi))
+            elif r < 0.7:
+                gs = [["eq", ["var", x], ["num", rng.randint(lo - 1, hi + 1)]]]
+            elif r < 0.85:
+                gs = [["eq", ["var", rest[0]], ["num", rng.randint(lo, hi)]]]
+            else:
+                gs = [["eq", ["var", x], ["var", rest[0]]]]
+            if rng.random() < 0.3:
+                gs.append(["eq", ["var", rng.choice(rest)], ["num", rng.randint(lo, hi)]])
+            return gs
+
+        A, B, C = branch(), branch(), branch()
+        g = "C10-dm%d" % i
         add(ctx, [query(ctx, g + "-abc", nv, prefix + [["conde", [A, B, C]]], group=g),
                   query(ctx, g + "-a", nv, prefix + A, group=g),
                   query(ctx, g + "-b", nv, prefix + B, group=g),
@@ -587,6 +649,12 @@ def plan_c09(ctx):
     for c in live_cases(ctx, r, "lazy"):
         c["take"] = (c["take"] - 10) // 3
         if c["take"] > 0:
+            add(ctx, [c])
+    # ... also when a disjunct is a depth-first block (its steps must stay single steps)
+    r = live_mc(ctx, "fin", "FinScope", True)
+    for c in live_cases(ctx, r, "lazyd"):
+        c["take"] = (c["take"] - 10) // 3
+        if c["take"] > 0 and "dfs" in vlib.goal_tags(c):
             add(ctx, [c])
     # fusedness: finite programs, four more next() calls after the first None
     for i in range(T(ctx, 150, 3000)):
